@@ -139,11 +139,14 @@ def observation(sess: dict, res: dict) -> dict:
     apps = []
     for a in res["apps"]:
         ex = "cancelled" if a["exit"] in ("CancelledError", "Cancelled") else a["exit"]     # the runtime's own name for a cancellation
-        apps.append({"scope": a["scope"], "recv": [r[1:] for r in a["recv"]], "send": [s[1:] for s in a["send"]], "exit": ex})
+        apps.append({"scope": a["scope"], "recv": [r[1:] for r in a["recv"]], "send": [s[1:] for s in a["send"]], "exit": ex,
+                     "state_seen": a.get("state_seen")})
     ends = [t for t in (res["eof_at"], res["closed_at"]) if t is not None]
     # the client's view of "the server closed": the first instant at which the server's byte stream ended
     obs: Dict[str, Any] = {"apps": apps, "closed_at": res["closed_at"], "server_closed": res["closed_at"] is not None,
-                           "stream_end_at": min(ends) if ends else None}
+                           "stream_end_at": min(ends) if ends else None,
+                           # the worker's own lifespan-state dict after the connection (each connection works on a copy)
+                           "worker_state_after": res.get("worker_state_after")}
     cr = res.get("client_result") or {}
     if sess.get("alpn") == "h2":
         summ = cr.get("h2") or {"streams": {}, "goaway": None, "error": "client did not finish"}
@@ -175,7 +178,7 @@ def observation(sess: dict, res: dict) -> dict:
     return obs
 
 
-COMPARED = ("apps", "client", "closed_at", "server_closed", "stream_end_at")
+COMPARED = ("apps", "client", "closed_at", "server_closed", "stream_end_at", "worker_state_after")
 
 
 def diff(oa: dict, ot: dict) -> List[dict]:
